@@ -256,6 +256,64 @@ func c48List(xs []string) string {
 // the body every HandlerList.FilterXxx loop is expected to have (I = interface type, CALL = the call)
 const c48LoopTemplate = `for e := hl.handlers.Front(); e != nil; e = e.Next() { switch filter := e.Value.(type) { case IFACE: ASSIGN = CALL if retVal != BfeHandlerGoOn { break LOOP } default: log.Logger.Error("%v (%T) is not a IFACE\n", e.Value, e.Value) break LOOP } }`
 
+// c48Events lists, in source order, the callback points (GetHandlerList), labels and calls to the named functions
+// that occur in fn's body (function literals such as deferred closures included).
+func c48Events(fset *token.FileSet, fn *ast.FuncDecl, calls map[string]bool) []string {
+	var out []string
+	ast.Inspect(fn.Body, func(n ast.Node) bool {
+		switch v := n.(type) {
+		case *ast.LabeledStmt:
+			out = append(out, "label:"+v.Label.Name)
+		case *ast.CallExpr:
+			name := ""
+			switch f := v.Fun.(type) {
+			case *ast.SelectorExpr:
+				name = f.Sel.Name
+			case *ast.Ident:
+				name = f.Name
+			}
+			if name == "GetHandlerList" && len(v.Args) == 1 {
+				out = append(out, "point:"+strings.TrimPrefix(c48Str(fset, v.Args[0]), "bfe_module.Handle"))
+			} else if calls[name] {
+				out = append(out, "call:"+name)
+			}
+		}
+		return true
+	})
+	return out
+}
+
+// c48IfWith reports whether fn contains an `if <cond>` (exact text) whose body (or else branch, when inElse) contains all
+// the given call names / statement texts.
+func c48IfWith(fset *token.FileSet, fn *ast.FuncDecl, cond string, inElse bool, needles ...string) bool {
+	found := false
+	ast.Inspect(fn.Body, func(n ast.Node) bool {
+		ifs, ok := n.(*ast.IfStmt)
+		if !ok || c48Str(fset, ifs.Cond) != cond {
+			return true
+		}
+		var blk ast.Node = ifs.Body
+		if inElse {
+			if ifs.Else == nil {
+				return true
+			}
+			blk = ifs.Else
+		}
+		txt := c48Str(fset, blk)
+		all := true
+		for _, nd := range needles {
+			if !strings.Contains(txt, nd) {
+				all = false
+			}
+		}
+		if all {
+			found = true
+		}
+		return true
+	})
+	return found
+}
+
 func init() {
 	register("C48", func(repo string) (string, error) {
 		var points []c48Point
@@ -436,6 +494,62 @@ func init() {
 		fmt.Fprintf(&b, "/-- `const ( HandleAccept = iota ... )` -/\ndef callbackPoints : List (String × Nat) := %s\n\n", cl(cps, "Handle"))
 		fmt.Fprintf(&b, "/-- `const ( keepAlive = iota ... )` of http_conn.go -/\ndef actions : List (String × Nat) := %s\n\n", cl(actions, ""))
 		fmt.Fprintf(&b, "/-- HandlerList.FilterXxx still is `retVal := GoOn; for each element: right type -> call, stop unless GoOn; wrong type -> stop; return retVal` -/\ndef filterLoopAsModelled : List (String × Bool) := [%s]\n", strings.Join(loopFacts, ", "))
+		// ---- the control-flow skeleton the arms are embedded in
+		type evSpec struct {
+			file, recv, fn string
+			calls          []string
+		}
+		specs := []evSpec{
+			{"bfe_server/http_conn.go", "conn", "serve", []string{"finish", "close", "Handshake", "readRequest", "serveRequest"}},
+			{"bfe_server/http_conn.go", "conn", "serveRequest", []string{"ServeHTTP", "prepareForCloseConn", "finishRequest", "FinishReq"}},
+			{"bfe_server/http_conn.go", "conn", "finish", nil},
+			{"bfe_server/reverseproxy.go", "ReverseProxy", "ServeHTTP", []string{"findProduct", "findCluster", "clusterInvoke", "sendResponse"}},
+			{"bfe_server/reverseproxy.go", "ReverseProxy", "clusterInvoke", []string{"Balance", "RoundTrip"}},
+			{"bfe_server/reverseproxy.go", "ReverseProxy", "FinishReq", nil},
+		}
+		var evRows []string
+		fdecl := map[string]*ast.FuncDecl{}
+		fsets := map[string]*token.FileSet{}
+		for _, sp := range specs {
+			fs, f, err := parseFile(repo, sp.file)
+			if err != nil {
+				return "", err
+			}
+			fd := findFunc(f, sp.recv, sp.fn)
+			if fd == nil || fd.Body == nil {
+				return "", fmt.Errorf("(%s).%s not found", sp.recv, sp.fn)
+			}
+			fdecl[sp.fn], fsets[sp.fn] = fd, fs
+			cm := map[string]bool{}
+			for _, c := range sp.calls {
+				cm[c] = true
+			}
+			evRows = append(evRows, fmt.Sprintf("  (%s, %s)", leanStr(sp.fn), c48List(c48Events(fs, fd, cm))))
+		}
+		b.WriteString("\n/-- per function, in source order: callback points, labels, and the calls the skeleton of the model relies on -/\n")
+		b.WriteString("def events : List (String × List String) := [\n" + strings.Join(evRows, ",\n") + "\n]\n\n")
+		sh, sr, sv := fdecl["ServeHTTP"], fdecl["serveRequest"], fdecl["serve"]
+		guards := []struct {
+			name string
+			ok   bool
+		}{
+			{"send_response writes res iff `!isRedirect && res != nil`", c48IfWith(fsets["ServeHTTP"], sh, "!isRedirect && res != nil", false, "p.sendResponse(rw, res,")},
+			{"after clusterInvoke: `err != nil || res == nil` -> internal error response, goto response_got", c48IfWith(fsets["ServeHTTP"], sh, "err != nil || res == nil", false, "res = bfe_basic.CreateInternalSrvErrResp(basicReq)", "goto response_got")},
+			{"serveRequest: `ret1 == closeDirectly` -> prepareForCloseConn", c48IfWith(fsets["serveRequest"], sr, "ret1 == closeDirectly", false, "res.prepareForCloseConn()")},
+			{"serveRequest: otherwise finishRequest", c48IfWith(fsets["serveRequest"], sr, "ret1 == closeDirectly", true, "res.finishRequest()")},
+			{"serveRequest: isKeepAlive = (ret1 == keepAlive) && (ret2 == keepAlive)", strings.Contains(c48Str(fsets["serveRequest"], sr.Body), "isKeepAlive = (ret1 == keepAlive) && (ret2 == keepAlive)")},
+			{"serve: `!isKeepAlive || w.closeAfterReply` -> break", c48IfWith(fsets["serve"], sv, "!isKeepAlive || w.closeAfterReply", false, "break")},
+			{"clusterInvoke returns (res, action, err) and ServeHTTP assigns `res, action, err = p.clusterInvoke(`", strings.Contains(c48Str(fsets["ServeHTTP"], sh.Body), "res, action, err = p.clusterInvoke(srv, cluster, basicReq, rw)")},
+		}
+		b.WriteString("/-- guards of the skeleton, checked textually against the current source -/\ndef guards : List (String × Bool) := [\n")
+		for i, g := range guards {
+			sep := ","
+			if i == len(guards)-1 {
+				sep = ""
+			}
+			fmt.Fprintf(&b, "  (%s, %v)%s\n", leanStr(g.name), g.ok, sep)
+		}
+		b.WriteString("]\n")
 		b.WriteString(footer("C48"))
 		return b.String(), nil
 	})
